@@ -404,6 +404,31 @@ func newAllocator(c *Case) (allocators.Allocator, error) {
 	return bitmap.NewIPv4Allocator(u32ip(c.Start, false), u32ip(c.Start+c.N-1, false))
 }
 
+// lenientIndex tells which block of the pool an allocation lies in, whatever its alignment,
+// length or form; false if it lies in none
+func (m *model) lenientIndex(got net.IPNet) (uint64, bool) {
+	if m.c.V6 {
+		ip := got.IP.To16()
+		if ip == nil {
+			return 0, false
+		}
+		q := m.index6(ip)
+		if q.Sign() < 0 || q.Cmp(new(big.Int).SetUint64(m.n)) >= 0 {
+			return 0, false
+		}
+		return q.Uint64(), true
+	}
+	ip4 := got.IP.To4()
+	if ip4 == nil {
+		return 0, false
+	}
+	v := uint32(ip4[0])<<24 | uint32(ip4[1])<<16 | uint32(ip4[2])<<8 | uint32(ip4[3])
+	if v < m.c.Start || v > m.c.Start+m.c.N-1 {
+		return 0, false
+	}
+	return uint64(v - m.c.Start), true
+}
+
 // checkBlock verifies that a successful allocation is a well-formed block of
 // the pool and returns its index
 func (m *model) checkBlock(got net.IPNet, rh resolvedHint) (uint64, *core.Violation) {
@@ -495,6 +520,15 @@ func Exec(c Case) (res core.Result) {
 				return
 			}
 			idx, v := m.checkBlock(got, rh)
+			if v != nil && !strings.HasPrefix(v.Signature, c.Mode+"/") {
+				// the shape of the allocation is another property's business: if the block it lies
+				// in can still be told, the history goes on with that block (what a malformed
+				// allocation does to later calls is this property's business again)
+				if li, ok := m.lenientIndex(got); ok {
+					idx, v = li, nil
+					res.Classes = append(res.Classes, "malformed-allocation-tolerated")
+				}
+			}
 			if v != nil {
 				v.Message = fmt.Sprintf("op %d: %s", i, v.Message)
 				res.Viol = v
